@@ -28,6 +28,7 @@ func init() {
 			{"connect.go", "func (p *Connect) SetProtocolName(v string) { p.protocolName = wstring(v) }", "func (p *Connect) SetProtocolName(v string) { setString(&p.protocolName, v) }\n\nfunc setString(dst *wstring, v string) {\n\t*dst = append((*dst)[:0], v...)\n}"}}},
 		{Name: "setter-helper-replacing-the-slice-stays", Silent: true, Edits: []Edit{
 			{"connect.go", "func (p *Connect) SetProtocolName(v string) { p.protocolName = wstring(v) }", "func (p *Connect) SetProtocolName(v string) { setString(&p.protocolName, v) }\n\nfunc setString(dst *wstring, v string) {\n\t*dst = make(wstring, len(v))\n\tcopy(*dst, v)\n}"}}},
+		{Name: "entries-added-to-a-map-returned-by-a-helper", Rule: "R11.1", Where: "(*SubAck).properties", Edits: []Edit{{"suback.go", "func (p *SubAck) propertyMap() map[Ident]func() wireType {\n\treturn map[Ident]func() wireType{\n\t\tReasonString: func() wireType { return &p.reasonString },\n\t}\n}", "func (p *SubAck) propertyMap() map[Ident]func() wireType {\n\tm := reasonProps(&p.reasonString)\n\tm[ServerReference] = func() wireType { return &p.reasonString }\n\treturn m\n}\n\nfunc reasonProps(r *wstring) map[Ident]func() wireType {\n\treturn map[Ident]func() wireType{\n\t\tReasonString: func() wireType { return r },\n\t}\n}"}}},
 		{Name: "single-entry-map-range-stays", Silent: true, Edits: []Edit{{"suback.go", "\tfor id, v := range p.propertyMap() {\n\t\ti += v().fillProp(b, i, id)\n\t}", "\tm := p.propertyMap()\n\tfor id, v := range m {\n\t\ti += v().fillProp(b, i, id)\n\t}"}}},
 	}})
 }
@@ -69,6 +70,25 @@ func mapAtMostOne(p *Prog, v ssa.Value, depth int) (bool, string) {
 		sc := x.Call.StaticCallee()
 		if sc == nil || sc.Blocks == nil {
 			return false, "map comes from a call that is not a static mq function"
+		}
+		// what happens to the returned map here, before it is ranged over
+		if refs := x.Referrers(); refs != nil {
+			for _, r := range *refs {
+				switch y := r.(type) {
+				case *ssa.MapUpdate:
+					if y.Map == ssa.Value(x) {
+						return false, "map returned by " + qname(sc) + " to which further entries are added at " + posOf(p, y) + ": iteration order is randomised per range"
+					}
+				case *ssa.Return, *ssa.DebugRef, *ssa.Range, *ssa.Lookup, *ssa.Phi:
+				case *ssa.Call:
+					if bi, ok := y.Call.Value.(*ssa.Builtin); ok && bi.Name() == "len" {
+						continue
+					}
+					return false, "map returned by " + qname(sc) + " is passed on before being ranged"
+				default:
+					return false, fmt.Sprintf("map returned by %s is used by %T", qname(sc), r)
+				}
+			}
 		}
 		why := ""
 		for _, b := range sc.Blocks {
